@@ -292,6 +292,8 @@ def _only_read_by_callee(idx, mod, fi, attr_node):
             call = c
     if call is None or not isinstance(call.func, ast.Name):
         return False
+    if call.func.id in ("sorted", "list", "tuple", "set", "frozenset", "len", "iter", "any", "all", "min", "max", "enumerate") and (idx.qualname(mod, call.func, fi) or "builtins.").startswith("builtins."):
+        return True  # a builtin that walks the table and hands back something new
     pos = [i for i, a in enumerate(call.args) if a is attr_node][0]
     r = idx.resolve(mod, call.func, fi)
     callee = r[1] if r is not None and r[0] == "func" else None
